@@ -276,6 +276,41 @@ def handle (req : Json) : Except String Json := do
     let L := scripted sp pol
     let (rs, ts) := runAll fx L st calls
     out := out ++ [("scripted", Json.arr rs.toArray), ("scripted_trace", Json.arr ts.toArray)]
+    -- whole history incl. learn (runHistory), its side condition (histOK), and score
+    match req.getObjVal? "rewards" with
+    | .ok rwj =>
+      let rws ← (← arr rwj).mapM parseVal
+      let hist := calls.zip rws
+      let batchable := sp.layout != .single
+      let learnJson (c : LearnCall) : Json := obj [("ctx", valToJson c.ctx), ("action", valToJson c.action), ("reward", valToJson c.reward),
+        ("prob", valToJson c.prob), ("kw", valToJson (.dict .tmp c.kwKeys c.kwVals))]
+      let hres : Json := match runHistory fx L batchable st hist with
+        | .ok outs => obj [("ok", ofList (fun (o : Result × List LearnCall) => ofList learnJson o.2) outs)]
+        | .error e => obj [("err", Json.str (errName e))]
+      let batched := match calls with | (.batch ..) :: _ => true | _ => false
+      out := out ++ [("history", hres), ("histOK", Json.bool (histOK fx sp pol batched st hist))]
+    | .error _ => pure ()
+    match req.getObjVal? "scores" with
+    | .ok sj =>
+      let sargs ← (← arr sj).mapM (fun j => do
+        let rows ← (← arr (← field j "rows")).mapM (fun r => do
+          pure ((← parseVal (← field r "ctx")), (← (← arr (← field r "actions")).mapM parseVal), (← parseVal (← field r "action"))))
+        if ← bool (← field j "batch") then pure (SArg.batch (rows.map (·.1)) (rows.map (·.2.1)) (rows.map (·.2.2)))
+        else match rows with
+          | [(c, as, x)] => pure (SArg.single c as x)
+          | _ => throw "an unbatched score call has one row")
+      let S := scriptedScore pol (sp.layout != .single) (← bool (← field req "score_tup"))
+      let rec go (m : Option Nat) : List SArg → List Json
+        | [] => []
+        | a :: as =>
+          match score fx (some S) m a with
+          | .ok (v, m') => obj [("ok", valToJson v), ("method", ofNat m')] :: go (some m') as
+          | .error e => obj [("err", Json.str (errName e))] :: go m as
+      let want := sargs.map (fun a => match a with
+        | .single c as x => valToJson (scoreOf pol c as x)
+        | .batch cs rows acts => ofList valToJson (scoresOf pol cs rows acts))
+      out := out ++ [("scores", Json.arr (go Option.none sargs).toArray), ("scores_want", Json.arr want.toArray)]
+    | .error _ => pure ()
     -- (C) the theorems' hypotheses and conclusion, evaluated call by call on the very definitions they are about
     let (hyp, holds, detail) := checkSpec fx sp pol st calls
     out := out ++ [("hyp", Json.bool hyp), ("holds", Json.bool holds), ("spec_detail", Json.arr detail.toArray)]
